@@ -62,6 +62,27 @@ NEEDS = {
  'C20_3': 'BitArrayT::set() with CAPACITY % 8 in 1..3 / 5..7: padding bits left set / top members left unset',
  'C20_4': 'BitArrayT::empty() with CAPACITY a multiple of 8 and all members in the last 8 indices: reports empty',
  'C20_5': 'DynamicArrayT += other on a non-empty array: elements written over the old ones',
+ 'C02_3': "a guard requests and then vetoes in the same round (or an exit guard requests and an entry guard vetoes): cancelPendingTransition() wipes the guard's own request",
+ 'C02_4': 'machine.changeTo<T>() (type-based, deferred): transitions immediately',
+ 'C02_5': 'request accepted, its guard requests another, that one is vetoed: fall-back to the active state (reenter) instead of the accepted destination',
+ 'C03_3': 'later-round veto of a request whose origin is not the last accepted destination (same patch family as C02_1)',
+ 'C03_4': 'injected exitGuard() cancels: deepExitGuard() reports "not cancelled", the transition is applied',
+ 'C03_5': 'activation: redirect accepted, second redirect vetoed: falls back to the origin of the vetoed request',
+ 'C04_3': 'guard vetoes and redirects in round >= 2 after an accepted request: vetoed state stays staged',
+ 'C04_4': 'Config::SubstitutionLimitN<2>::TaskCapacityN<8>: the capacity lands in the substitution-limit slot',
+ 'C04_5': 'machine-level (bare) request accepted, later round vetoed: the fall-back is filtered as a duplicate, vetoed state entered',
+ 'C06_3': 'query(): control.isActive<T>() on the const control answers for the calling state',
+ 'C08_3': 'TaskCapacityN<N> below the state count, reporting state id >= N: its report bits survive the end of a plan',
+ 'C08_4': 'head task fires with a successor, plan empties, new plan reuses the slot as last task: stale link, phantom task (same patch as C10_3)',
+ 'C08_5': 'payload machines: fired task consumes the report of its destination instead of its origin',
+ 'C09_3': 'same patch as C08_3 seen through the plan outcome callbacks',
+ 'C09_4': 'manual activation, exit() of a state appends a task: planExists set after PlanData::clear(), callbacks after re-activation without a plan',
+ 'C11_3': 'payload request from a callback recorded with origin invalid in previousTransition() (same patch as C06_2)',
+ 'C11_4': "update() without a request keeps the previous step's previousTransition()",
+ 'C15_3': 'state with >= 2 injections re-entered: injections 2..k get enter() instead of reenter()',
+ 'C15_4': 'postReact with >= 1 injection: injections run before the state instead of after',
+ 'C18_4': 'TaskCapacityN above the state count: PlanT::clear() clears bits beyond the bit arrays (same patch as C08_3)',
+ 'C18_5': 'Iterator::remove() of the last of >= 2 tasks, then append: writes taskLinks[255]',
 }
 def sh(cmd, **kw):
     return subprocess.run(cmd, shell=True, stdout=subprocess.PIPE, stderr=subprocess.STDOUT, text=True, **kw)
